@@ -312,13 +312,16 @@ def handle (s : State) (m : Msg) : State :=
       let s := { s with outbox := s.outbox ++ [{ kind := .cancel, peer := s.peer }] }
       cancelOnError s (if api then some Err.cc else none)
   | .responses p st items hk =>
-    -- processExtensions (response hooks) runs before filterResponsesForPeer
-    if hk then
+    -- processResponses: filterResponsesForPeer and processExtensions (response hooks) in the order of the
+    -- source (`hooksAfterPeerFilter`); a hook error cancels the request and drops the response
+    let passesFilter := s.reg == .live && p == s.peer
+    let hookRuns := if GS.Generated.ReqLifecycleSpec.hooksAfterPeerFilter then passesFilter else true
+    if hookRuns && hk then
       if s.reg != .live then s
       else
         let s := { s with outbox := s.outbox ++ [{ kind := .cancel, peer := s.peer }] }
         cancelOnError s (some Err.hook)
-    else if s.reg != .live || p != s.peer then s
+    else if !passesFilter then s
     else
       -- IngestResponse (refused while offline)
       let s := if s.hasLoader && s.online then { s with rq := s.rq + items } else s
